@@ -754,6 +754,7 @@ var c01Resource = []c01Res{
 		return map[string]string{"/main.tpl": "{% extends \"/base.tpl\" %}{% block a %}{% include \"/inc.tpl\" with bi=block %}{% endblock %}", "/base.tpl": "{% block a %}{% include \"/inc.tpl\" with bi=bi %}{% endblock %}", "/inc.tpl": "{{ bi.Super }}"}
 	}, nil},
 	{"concurrent-loads", nil, nil},
+	{"lorem-every-count", nil, nil},
 	{"extends-self", func() map[string]string { return map[string]string{"/main.tpl": "{% extends \"/main.tpl\" %}"} }, nil},
 	{"extends-cycle-2", func() map[string]string {
 		return map[string]string{"/main.tpl": "{% extends \"/b.tpl\" %}", "/b.tpl": "{% extends \"/main.tpl\" %}"}
@@ -829,6 +830,22 @@ func c01ConcurrentLoads(c *C) {
 		"/brokenparent.tpl": "{% extends \"/missing.tpl\" %}", "/panics.tpl": "PANIC"}
 	names := []string{"/ok.tpl", "/broken.tpl", "/missing.tpl", "/brokenlex.tpl", "/brokennested.tpl", "/brokenparent.tpl", "/panics.tpl"}
 	set := pongo2.NewSet("c01-concurrent", &c01SlowLoader{files: files})
+	// first alone: the set's switches are flipped between calls for names that are / are not cached yet
+	for step, dbg := range []bool{false, true, true, false, true, false} {
+		set.Debug = dbg
+		for _, name := range []string{"/ok.tpl", "/broken.tpl", "/missing.tpl", "/inc.tpl"} {
+			tpl, err := set.FromCache(name)
+			if (tpl == nil) == (err == nil) {
+				c.Fail("template-and-error", D{"name": name, "Debug": dbg, "step": step})
+				return
+			}
+		}
+		if step%2 == 1 {
+			set.CleanCache("/ok.tpl")
+		}
+	}
+	set.Debug = false
+	c.Eval(24)
 	for round := 0; round < 12; round++ {
 		name := names[round%len(names)]
 		var wg sync.WaitGroup
@@ -872,6 +889,29 @@ func c01ConcurrentLoads(c *C) {
 
 func c01ResourceCase(c *C, i int) {
 	rc := c01Resource[i]
+	if rc.name == "lorem-every-count" {
+		// every count from 0 to 1300 (and around larger multiples of the built-in text's length) in every method
+		set, _ := newSet(emptySetFiles)
+		counts := []int{-1, 2264, 2830, 5660, 11320, 99999, 100000}
+		for n := 0; n <= 1300; n++ {
+			counts = append(counts, n)
+		}
+		for _, n := range counts {
+			for _, m := range []string{"w", "p", "b", "w random", ""} {
+				if n > 3000 && m != "w" {
+					continue
+				}
+				src := fmt.Sprintf("{%% lorem %d %s %%}", n, m)
+				c01One(c, set, src, "", []pongo2.Context{nil}, n%4)
+				if c.Failed() {
+					return
+				}
+			}
+		}
+		c.Nontrivial("r:" + rc.name)
+		c.Cover("resource_" + rc.name)
+		return
+	}
 	if rc.name == "concurrent-loads" {
 		c01ConcurrentLoads(c)
 		c.Nontrivial("r:" + rc.name)
